@@ -350,6 +350,118 @@ def check_duplicate_symbols(ctx, F):
     ctx.extra['map_insert_sites'] = n
 
 
+LAZY = 'stream::model::categorical::lazy_contiguous::LazyContiguousCategoricalEntropyModel'
+
+
+def _float_to_fixed_sites(F, b):
+    """[(clamped?, text)] for every conversion `as_(float product) -> Probability` in body b (pure private helpers opened)"""
+    out = []
+    try:
+        ev, paths = rules.evaluate(b)
+    except sym.TooManyPaths:
+        return None
+    seen = set()
+
+    def visit(t, under_min):
+        if not isinstance(t, tuple) or not t:
+            return
+        if t[0] == 'cast' and len(t) >= 5 and t[1] == 'as_' and t[4] in ('F', 'f32', 'f64') and sym.contains(t[2], lambda x: isinstance(x, tuple) and x and x[0] == 'bin' and x[1].split('.')[0] == 'Mul'):
+            k = (repr(effects.strip_uid(t)), under_min)
+            if k not in seen:
+                seen.add(k)
+            out.append((under_min, sym.show(t)[:70], repr(effects.strip_uid(t))))
+            return
+        if t[0] == 'call' and str(t[1]).endswith(('Ord::min', 'cmp::min')) and len(t[2]) == 2:
+            for a in t[2]:
+                visit(a, True)
+            return
+        for c in t[1:]:
+            if isinstance(c, tuple):
+                if c and isinstance(c[0], str):
+                    visit(c, False)
+                else:
+                    for d in c:
+                        if isinstance(d, tuple):
+                            visit(d, False)
+    is_cast = lambda t: isinstance(t, tuple) and len(t) >= 5 and t[0] == 'cast' and t[1] == 'as_' and t[4] in ('F', 'f32', 'f64') and sym.contains(t[2], lambda x: isinstance(x, tuple) and x and x[0] == 'bin' and x[1].split('.')[0] == 'Mul')
+    for r in paths or []:
+        # the clamp written as a branch: on this path the conversion is decided to lie below an integer bound
+        guarded = set()
+        preds = [(rules.inline_pure(F, t), v) for t, v, _ in r.preds]
+        for t, v in preds:
+            if t[0] == 'bin' and t[1] in ('Lt', 'Le', 'Gt', 'Ge'):
+                a, c = t[2], t[3]
+                if is_cast(a) and not is_cast(c) and ((t[1] in ('Lt', 'Le')) == bool(v)):
+                    guarded.add(repr(effects.strip_uid(a)))
+                if is_cast(c) and not is_cast(a) and ((t[1] in ('Gt', 'Ge')) == bool(v)):
+                    guarded.add(repr(effects.strip_uid(c)))
+        # where the value ends up: the result, stores, decisions, and what is handed to other functions (the clamp itself excepted)
+        terms = ([r.ret] if r.ret is not None else []) + [e['value'] for e in r.events if e['kind'] in ('write', 'write_ref')]
+        for t, v in preds:
+            if t[0] == 'bin' and t[1] in ('Lt', 'Le', 'Gt', 'Ge') and (is_cast(t[2]) or is_cast(t[3])):
+                continue          # the comparison that clamps (or fails to): judged through `guarded`
+            terms.append(t)
+        for e in r.events:
+            if e['kind'] == 'call' and not str(e['callee']).endswith(('Ord::min', 'cmp::min', 'AsPrimitive::as_', 'ops::Mul::mul', 'PartialOrd::lt', 'PartialOrd::le', 'PartialOrd::gt', 'PartialOrd::ge')):
+                terms += list(e.get('args_val', e['args']))
+        n0 = len(out)
+        for t in terms:
+            visit(rules.inline_pure(F, t), False)
+        # occurrences found on this path that the path's own decision bounds
+        for i in range(n0, len(out)):
+            c, txt, key = out[i]
+            if not c and key in guarded:
+                out[i] = (True, txt, key)
+    # a conversion counts as clamped only if it never also occurs unclamped
+    res = {}
+    for c, txt, _ in out:
+        res[txt] = res.get(txt, True) and c
+    return sorted(res.items())
+
+
+def lazy_lookups_clamped(F):
+    """(all clamped?, number of conversions) over the methods of the lazy categorical model"""
+    n = 0
+    allc = True
+    for b in F.bodies:
+        if b.promoted is not None or is_test(b) or b.self_adt != LAZY or b.dk != 'AssocFn' or b.name == 'from_floating_point_probabilities_fast':
+            continue
+        for txt, c in _float_to_fixed_sites(F, b) or []:
+            n += 1
+            allc = allc and c
+    return allc and n > 0, n
+
+
+def check_scaled_cumulative_clamped(ctx, F):
+    """A cumulative that is computed in floating point (`prefix_sum * scale`) and converted to fixed point cannot be trusted to
+    stay below the integer bound it was scaled to: `scale` is itself a rounded quotient, the product is rounded again, and
+    for PRECISION above the mantissa width the free weight is not even representable (f32: [106.71429, 118.14286, 0.0] at
+    PRECISION 24 gives the last symbol probability zero; [1.0, 0.0] at PRECISION 26 gives the cdf [0, 2^26 + 1, 2^26]).  So
+    every such conversion that feeds a cdf is clamped in *integer* arithmetic (`min` with the free weight) before the
+    per-symbol slack is added; the consumers wrap the differences into NonZero without a check."""
+    ff = anchors.validators(F).get('float_fast')
+    bodies = []
+    if ff is not None:
+        bodies += [(c, 'eager') for c in F.closures_of(ff)]
+    bodies += [(b, 'lazy') for b in F.bodies if b.promoted is None and not is_test(b) and b.self_adt == LAZY and b.dk == 'AssocFn' and b.name != 'from_floating_point_probabilities_fast']
+    n = 0
+    for b, kind in bodies:
+        sites = _float_to_fixed_sites(F, b)
+        if not sites:
+            continue
+        ctx.touch(b)
+        for i, (txt, clamped) in enumerate(sites):
+            n += 1
+            key = 'R10/scaled-cumulative-clamped/%s#%d' % (b.defpath, i)
+            role = 'a float-scaled cumulative is clamped in integer arithmetic before it enters the cdf'
+            if clamped:
+                ctx.ok('R10', role, b.defpath, '`%s` only occurs under `min(.., bound)`' % txt, key=key)
+            else:
+                ctx.bad('R10', role, b.defpath, '`%s` goes into the cumulative as it comes out of the float arithmetic (a bound applied in floating point does not help: the float image of the free weight is itself rounded): rounding (of the scale, of the product, of a free weight that f32 cannot represent for PRECISION > 24) can lift it past the free weight, so trailing symbols get probability zero or the cdf passes 1 << PRECISION' % txt, key=key, loc=rules.loc(b))
+    ctx.extra['float_to_fixed_conversions'] = n
+    ctx.floor('R10', 'floor: float-to-fixed conversions of cumulatives', 'stream::model::categorical', n, 2, 'only %d conversions `as_(prefix_sum * scale)` found in the fast quantiser and the lazy model' % n, key='R10/floor/scaled-cumulative')
+
+
 def check_supplied_normalization(ctx, F, b, role_name):
     """A caller-supplied scalar that stands in for a quantity the function could compute from its other argument (the
     `normalization: Option<F>` of the float-table ingesters, documented as "the sum of the probabilities") is redundant
@@ -405,6 +517,10 @@ def check_supplied_normalization(ctx, F, b, role_name):
                        'the last cumulative reaches or passes 1 << PRECISION (zero or negative probability for the last symbol)' % tolerant_sites[0], key=key, loc=rules.loc(b))
     if not n_dep:
         return ctx.ok('R4', role, b.defpath, 'no accepting path depends on the supplied value', key=key)
+    if 'bad' in verdicts and b.self_adt == LAZY:
+        allc, nconv = lazy_lookups_clamped(F)
+        if allc:
+            return ctx.ok('R4', role, b.defpath, 'the supplied value is not compared with the table, but all %d float-to-fixed conversions of the lookups clamp the scaled cumulative to the free weight: a normalization below the sum distorts the model and cannot lift a cumulative past 1 << PRECISION' % nconv, key=key)
     if 'bad' in verdicts:
         return ctx.bad('R4', role, b.defpath, 'the supplied normalization is only checked in isolation (is_normal, is_sign_positive); nothing compares it with the probabilities: a value below their sum '
                        '(e.g. [1.0, 1.0] with Some(0.9999999)) scales the cumulative table past 1 << PRECISION, so the last symbol gets probability zero (or the table wraps)', key=key, loc=rules.loc(b))
@@ -718,6 +834,90 @@ def check_final_decision(ctx, F):
         ctx.ok('R3', role, b.defpath, '%d accepting path(s), each controlled by the total and all %d loop accumulators (%s)' % (len(oks), len(want), ', '.join(sorted(want))), key=key)
 
 
+def check_zero_entry_counted(ctx, F):
+    """An explicit zero entry in a fixed-point table is noticed by the shared validator.  The loop is branchless: a counter is
+    stepped by the truth value of a comparison between the running sum after and before the entry.  At entry == 0 the two sums
+    are equal, so the comparison must hold at equality (or the entry is tested against zero by itself); with a strict
+    comparison only wrap-arounds are counted and a table with a zero entry whose other entries add up passes - a symbol with an
+    empty interval."""
+    fp = anchors.validators(F).get('fixed_point')
+    key = 'R9/zero-entry-counted/validator:fixed_point'
+    role = 'an explicit zero entry steps the wrap-or-zero counter (or is refused directly)'
+    if fp is None:
+        return ctx.bad('R9', role, 'accumulate_nonzero_probabilities', 'validator not found', key=key)
+    b = fp
+    ev, paths = rules.evaluate(b)
+    ctx.touch(b)
+
+    def at_zero(t, item, acc):
+        """truth value of boolean term t when item == 0 (so acc + item == acc), or None"""
+        if not isinstance(t, tuple) or not t:
+            return None
+        if t[0] == 'cast':
+            return at_zero(t[2], item, acc)
+        if t[0] == 'bin':
+            op = t[1].split('.')[0]
+            if op in ('BitOr', 'BitAnd'):
+                x, y = at_zero(t[2], item, acc), at_zero(t[3], item, acc)
+                if op == 'BitOr':
+                    return True if (x is True or y is True) else (False if (x is False and y is False) else None)
+                return False if (x is False or y is False) else (True if (x is True and y is True) else None)
+            if op in ('Le', 'Lt', 'Ge', 'Gt', 'Eq', 'Ne'):
+                norm = lambda u: acc if (isinstance(u, tuple) and u and u[0] == 'bin' and u[1].split('.')[0] == 'Add' and {u[2], u[3]} == {acc, item}) else u
+                l, rr = norm(t[2]), norm(t[3])
+                zero = lambda u: isinstance(u, tuple) and u and ((u[0] == 'k' and u[1] == 'zero') or (u[0] == 'int' and u[1] == 0) or u == item)
+                if l == rr or (zero(l) and zero(rr)):
+                    return op in ('Le', 'Ge', 'Eq')
+                return None
+        if t[0] == 'un' and t[1] == 'Not':
+            x = at_zero(t[2], item, acc)
+            return None if x is None else (not x)
+        if t[0] == 'call' and str(t[1]).endswith('is_zero') and t[2] and t[2][0] == item:
+            return True
+        return None
+
+    verdicts = []
+    for r in paths or []:
+        if r.end != 'backedge':
+            continue
+        le = [e for e in r.events if e['kind'] == 'loop_enter']
+        if not le:
+            continue
+        le = le[-1]
+        # the item is refused by a branch of its own?
+        for t, v, _ in r.preds:
+            if t[0] == 'bin' and t[1] in ('Eq', 'Ne') and any(isinstance(u, tuple) and u and u[0] == 'k' and u[1] == 'zero' for u in (t[2], t[3])):
+                other = t[3] if (t[2][0] == 'k') else t[2]
+                if other[0] == 'payload' and sym.contains(other, lambda x: isinstance(x, tuple) and x and x[0] == 'call' and str(x[1]).endswith('Iterator::next')):
+                    if (t[1] == 'Ne' and v) or (t[1] == 'Eq' and not v):
+                        verdicts.append((True, 'the loop goes on only with entry != 0'))
+        for path in le['pre']:
+            if not (len(path) == 1 and isinstance(path[0], int)):
+                continue
+            fin = ev.final_read(r, path)
+            me = ('loop', le['head'], path)
+            if not (isinstance(fin, tuple) and fin and fin[0] == 'bin' and fin[1].split('.')[0] == 'Add' and me in (fin[2], fin[3])):
+                continue
+            step = fin[3] if fin[2] == me else fin[2]
+            if not (isinstance(step, tuple) and step and step[0] == 'cast' and step[-1] == 'bool'):
+                continue
+            # the accumulators and the item inside the comparison
+            adds = [x for x in sym.subterms(step) if isinstance(x, tuple) and x and x[0] == 'bin' and x[1].split('.')[0] == 'Add' and any(isinstance(u, tuple) and u and u[0] == 'loop' for u in (x[2], x[3]))]
+            if not adds:
+                verdicts.append((None, 'counter step `%s` does not compare running sums' % sym.show(step)[:60]))
+                continue
+            a = adds[0]
+            acc, item = (a[2], a[3]) if (a[2][0] == 'loop') else (a[3], a[2])
+            verdicts.append((at_zero(step, item, acc), sym.show(step)[:90]))
+    if not verdicts:
+        return ctx.unresolved('R9', role, b.defpath, 'no counter stepped by a comparison and no zero test found in the loop', key=key)
+    if any(v is True for v, _ in verdicts):
+        return ctx.ok('R9', role, b.defpath, 'at entry == 0: %s holds' % next(d for v, d in verdicts if v is True), key=key)
+    if all(v is False for v, _ in verdicts):
+        return ctx.bad('R9', role, b.defpath, 'the counter is stepped by `%s`, which is false when the entry is zero (the sum after equals the sum before): explicit zero entries go unnoticed, a table such as [2^(P-1), 0, 2^(P-1)] is accepted and yields a symbol with an empty interval' % verdicts[0][1], key=key, loc=rules.loc(b))
+    ctx.unresolved('R9', role, b.defpath, 'counter step not decided at entry == 0 (%s)' % verdicts[0][1], key=key)
+
+
 def check_inferred_probability(ctx, F):
     """The probability the validator infers for the last symbol (total - accum) is non-zero on every path that
     hands it on: either accum < total was established, or the configuration is PRECISION == BITS (total wraps to
@@ -878,6 +1078,8 @@ def run(ctx):
     check_final_decision(ctx, F)
     check_constructor_narrowing(ctx, F)
     check_inferred_probability(ctx, F)
+    check_zero_entry_counted(ctx, F)
+    check_scaled_cumulative_clamped(ctx, F)
     check_duplicate_symbols(ctx, F)
     check_nondegenerate_support(ctx, F)
     if ctx.tier == 'thorough':
